@@ -7,6 +7,7 @@
 package main
 
 import (
+	"bytes"
 	"context"
 	"fmt"
 	"runtime"
@@ -358,6 +359,11 @@ func scenario(c cfg) *mcx.Scenario {
 						}
 						if ov == 1 && !deregSeen[idx] {
 							deregSeen[idx] = true
+							if et, eerr := o.M.Options.GetBytes(message.ETag); c.ETag && eerr == nil && !bytes.Equal(et, []byte{0xE7}) {
+								// the entity tag a deregistration carries is one the peer sent on this observation - not bytes of a
+								// notification buffer that went back to the pool (and was poisoned or refilled) in the meantime
+								fail("pool/deregistration-carries-foreign-etag", "the deregistration of observation %d carries ETag %x; every message of the peer carried e7", idx, et)
+							}
 							if !c.DeregFails {
 								_ = w.inject(ackOrNon(codes.Content, false, 0, true))
 							}
